@@ -19,6 +19,7 @@ pub mod c14;
 pub mod c15;
 pub mod c17;
 pub mod c18;
+pub mod c19;
 pub mod c20;
 pub mod kf;
 
@@ -44,6 +45,7 @@ pub fn run(id: &str, tier: Tier, seed: u64, replay: Option<Value>) -> i32 {
         "C15" => hist::run(&c15::spec(), tier, seed, replay),
         "C17" => c17::run(tier, seed, replay),
         "C18" => hist::run(&c18::spec(), tier, seed, replay),
+        "C19" => c19::run(tier, seed, replay),
         "C20" => c20::run(tier, seed, replay),
         _ => {
             eprintln!("unknown property {}", id);
